@@ -168,12 +168,17 @@ theorem rHat_general (x : AxiExtra γ) (rn q : V3 γ) (R : γ)
       (2 * (q 0 * rn 0 * x.log (rn 0) + q 1 * rn 1 * x.log (rn 1) + q 2 * rn 2 * x.log (rn 2))) := by
   simp [rHat, h0, h1, h2, g0, g1, g2]
 
-/-- the axisymmetric solver gives an in-plane lamination the same parallel combination of iron and air as the planar one
-    (`lamMu`) — since the repair of `staticaxi.cpp` (it used to drop the air term `1 − t`, which the harmonic solvers and the
-    post-processor include; found by the vanishing-frequency pairs of C11) -/
-theorem firstPassMuAxi_inplane (bp : MBlockProp γ) (h : bp.lamType = 0) :
-    firstPassMuAxi bp = lamMu 0 bp.lamFill bp.mux bp.muy := by
-  simp [firstPassMuAxi, lamMu, h]
+/-- the axisymmetric solver gives every lamination type the same permeabilities as the planar one, hence the laminated-material
+    laws `lamMu` — since the repairs of `staticaxi.cpp`: it used to drop the air term `1 − t` of in-plane laminations (found by the
+    vanishing-frequency pairs of C11) and to give laminations parallel to y the orientation of those parallel to x (found by the
+    energy identity of C13 on laminated problems) -/
+theorem firstPassMuAxi_eq_planar (bp : MBlockProp γ) : firstPassMuAxi bp = firstPassMu bp := by
+  unfold firstPassMuAxi firstPassMu
+  rfl
+
+theorem firstPassMuAxi_eq_lamMu (bp : MBlockProp γ) :
+    firstPassMuAxi bp = lamMu bp.lamType bp.lamFill bp.mux bp.muy := by
+  rw [firstPassMuAxi_eq_planar]; exact firstPassMu_eq_lamMu bp
 
 end AxiThresholds
 
